@@ -720,6 +720,9 @@ REG.spec('agent/scheduler/base.py:AgentSchedulingComponent._schedule_waitpool',
          'forall(lambda u: implies(indom(P0(), u) and needs_env(at(P0(), u), self._named_envs), has_uid(to_wait, u)), Str)'),
       ],
       'scheduled, unscheduled, failed = ru.lazy_bisect(': [
+        ('this-pool-counts-as-tried',
+         'len(tried) == len(at_head("1", tried)) + 1 and tried[len(tried) - 1] == priority and '
+         'forall(lambda a: implies(0 <= a < len(at_head("1", tried)), tried[a] == at_head("1", tried)[a]))'),
         ('every-candidate-is-in-one-of-the-three-lists',
          'forall(lambda u: implies(indom(P0(), u) and not needs_env(at(P0(), u), self._named_envs), '
          'has_uid(scheduled, u) or has_uid(unscheduled, u) or exists(lambda m: 0 <= m < len(failed) and failed[m][0].uid == u)), Str)'),
@@ -796,6 +799,16 @@ REG.spec('agent/scheduler/base.py:AgentSchedulingComponent._schedule_waitpool',
       ('nobody-else-is-reported',
        'forall(lambda u: implies(at(fate, u) != at(old(fate), u), exists(lambda p: inpool(old(self._waitpool), p, u), Int)), Str)'),
       ('higher-priority-pools-are-tried-first', 'forall(lambda a, b: implies(0 <= a < b < len(tried), tried[a] > tried[b]))'),
+      # no pool is skipped: a pass over the wait pool gives every waiting task whose
+      # environment is ready a placement attempt, whatever happened in other pools
+      # (the code tries every such pool - that is the loop invariant; the property only
+      # needs the weaker statement, which also holds for a pass that stops once a
+      # higher priority pool could not be placed completely)
+      ('a-ready-waiting-task-is-tried-unless-a-higher-priority-task-was-tried-and-still-waits',
+       'forall(lambda p, u: implies(inpool(old(self._waitpool), p, u) and not needs_env(at(at(old(self._waitpool), p), u), self._named_envs), '
+       'exists(lambda a: 0 <= a < len(tried) and tried[a] == p) or '
+       'exists(lambda q, v: q > p and inpool(self._waitpool, q, v) and not needs_env(at(at(self._waitpool, q), v), self._named_envs) and '
+       'exists(lambda a: 0 <= a < len(tried) and tried[a] == q), Int, Str)), Int, Str)'),
       ('activity-flag-tells-whether-something-started', 'result[1] == (n_started > old(n_started))'),
     ],
     loops = {
@@ -813,7 +826,10 @@ REG.spec('agent/scheduler/base.py:AgentSchedulingComponent._schedule_waitpool',
             'forall(lambda u: implies(at(fate, u) != at(old(fate), u), '
             'exists(lambda j: 0 <= j < i_priority and inpool(old(self._waitpool), seq_priority[j], u))), Str)',
             'forall(lambda a, b: implies(0 <= a < b < len(tried), tried[a] > tried[b]))',
-            'forall(lambda a, j: implies(0 <= a < len(tried) and i_priority <= j < len(seq_priority), tried[a] > seq_priority[j]))'],
+            'forall(lambda a, j: implies(0 <= a < len(tried) and i_priority <= j < len(seq_priority), tried[a] > seq_priority[j]))',
+            'forall(lambda j, u: implies(0 <= j < i_priority and inpool(old(self._waitpool), seq_priority[j], u) and '
+            'not needs_env(at(at(old(self._waitpool), seq_priority[j]), u), self._named_envs), '
+            'exists(lambda a: 0 <= a < len(tried) and tried[a] == seq_priority[j])), Int, Str)'],
       '1.1': ['self._waitpool == at_head("1", self._waitpool)', 'same_fate(fate, at_head("1", fate))',
               'pool == at(self._waitpool, priority)', 'len(to_test) + len(to_wait) == i_task',
               'forall(lambda j: implies(0 <= j < i_task, ite(needs_env(at(pool, keys_task[j]), self._named_envs), '
